@@ -1,5 +1,26 @@
-"""C18 confinement adapters: the real Process / Watcher / Signal / Kill code over fake psutil handles."""
+"""C18 confinement adapters: the real Process / Watcher / Signal / Kill code over fake psutil handles.
+Direct os.kill / os.killpg calls of the code under replay are intercepted (never delivered) and counted as signals."""
+import os
 from replay.adapters import register
+
+
+class KillTrap(object):
+    """every os.kill / os.killpg inside the block is recorded into `log` instead of being delivered"""
+    def __init__(self, log):
+        self.log = log
+
+    def __enter__(self):
+        self.saved = (os.kill, getattr(os, 'killpg', None))
+        os.kill = lambda pid, sig: self.log.append((pid, int(sig)))
+        if self.saved[1] is not None:
+            os.killpg = lambda pg, sig: self.log.append((-pg, int(sig)))
+        return self
+
+    def __exit__(self, *a):
+        os.kill = self.saved[0]
+        if self.saved[1] is not None:
+            os.killpg = self.saved[1]
+        return False
 
 
 class FakeWorker(object):
@@ -81,6 +102,7 @@ class ProcSendSignalChild(object):
         p = w1.processes[100]
         obs = {}
         try:
+          with KillTrap(log):
             p.send_signal_child(inp['pid'], inp['signum'])
         except Exception as e:
             obs['raised'] = type(e).__name__
@@ -119,6 +141,7 @@ class ProcSendSignalChildren(object):
         log, w1, w2 = world()
         obs = {}
         try:
+          with KillTrap(log):
             w1.processes[100].send_signal_children(inp['signum'], inp['recursive'])
         except Exception as e:
             obs['raised'] = type(e).__name__
@@ -152,6 +175,7 @@ class WatcherSendSignalChild(_WatcherLevel):
         log, w1, w2 = world()
         obs = {}
         try:
+          with KillTrap(log):
             w1.send_signal_child(inp['pid'], inp['child_id'], inp['signum'])
         except Exception as e:
             obs['raised'] = type(e).__name__
@@ -186,6 +210,7 @@ class WatcherSendSignalChildren(_WatcherLevel):
         log, w1, w2 = world()
         obs = {}
         try:
+          with KillTrap(log):
             w1.send_signal_children(inp['pid'], inp['signum'], recursive=inp['recursive'])
         except Exception as e:
             obs['raised'] = type(e).__name__
@@ -240,6 +265,7 @@ class SignalExecute(object):
             props['childpid'] = inp['childpid']
         obs = {}
         try:
+          with KillTrap(log):
             Signal().execute(arb, props)
         except Exception as e:
             obs['raised'] = type(e).__name__
